@@ -258,6 +258,16 @@ def report_violation(summary, seed, index, known, log=print):
     small, v, res = minimise(trace, want, fails, budget_s=float(os.environ.get('VERIF_MINIMISE_S', '240')), log=log)
     log(f'minimised in {time.time() - t0:.0f}s to {sum(len(p) for p in small["callers"])} operations, '
         f'{len(small.get("faults", []))} faults, {len(small.get("schedule") or [])} schedule segments')
+    # canonical form: replay the minimised trace until the schedule it executes is the schedule it names
+    for _ in range(3):
+        v1, res1 = fails(small, want)
+        if v1 is None:
+            break
+        same = res1['digest'] == res['digest']
+        small['schedule'] = res1['segments']
+        v, res = v1, res1
+        if same:
+            break
     # replay twice more in fresh processes
     ok = 0
     for _ in range(2):
@@ -265,7 +275,13 @@ def report_violation(summary, seed, index, known, log=print):
         if v2 is not None and res2['digest'] == res['digest']:
             ok += 1
     if ok < 2:
-        return 'unreproducible', None, f'replayed {ok}/2 times'
+        os.makedirs(os.path.join(VERIF, 'replays'), exist_ok=True)
+        upath = os.path.join(VERIF, 'replays', f'C09-unreproduced-{seed}-{index}.json')
+        small['violation'] = v
+        small['digest'] = res['digest']
+        with open(upath, 'w') as f:
+            json.dump(small, f, indent=1, default=str)
+        return 'unreproducible', None, f'replayed {ok}/2 times (trace kept at {upath})'
     small['violation'] = v
     small['digest'] = res['digest']
     small['outcomes'] = res.get('outcomes')
